@@ -46,7 +46,7 @@ def required_counters(tier):
     forms = ["comma", "trailing#", "ellipsis-with-more", "repeat#", "repeat*", "repeat_", "repeat?", "anon+bcast",
              "fixed+variadic", "fixed+anon", "fixed+tree", "symbolic+anon", "symbolic+variadic", "symbolic+tree", "two-variadics", "nonstring"]
     d = {"illegal." + f: 1 for f in forms}
-    d.update({"tokens.built": 20000, "tokens.accepted": 500, "tokens.valueerror": 5000, "groups.vector_compared": 100, "sequences": 1000, "ellipsis_equiv": 1, "nested_builds": 1000, "nested_builds.illegal": 100})
+    d.update({"tokens.built": 20000, "tokens.accepted": 500, "tokens.valueerror": 5000, "groups.vector_compared": 100, "sequences": 1000, "ellipsis_equiv": 1, "nested_builds": 1000, "nested_builds.illegal": 100, "shards_with_warnings_as_errors": 2})
     return d
 
 
@@ -264,14 +264,20 @@ def run_shard(rec, seed, shard, tier):
         real.hostile_prelude(rec)  # a past: nothing the check decides may depend on it
         real.toplevel_probes(rec, None, "after the hostile prelude")
     gs = groups()
-    for idx, (mods, base, doc) in enumerate(gs):
-        if idx % NSHARDS == shard["i"]:
-            run_group(rec, mods, base, doc)
-    rec.info["groups_total"] = len(gs) if shard["i"] == 0 else 0
-    for k in range(SEQ_CASES[tier]):
-        run_sequence(rec, random.Random(f"{seed}/C14/{shard['i']}/{k}"))
-        if k % 3 == 0:
-            run_nested_build(rec, random.Random(f"{seed}/C14/{shard['i']}/nested{k}"))
+    with warnings.catch_warnings():
+        if shard["i"] % 4 == 2:
+            # a program that runs with warnings turned into errors (python -W error, pytest's filterwarnings = error):
+            # a legal specification still builds, an illegal one still raises ValueError - nothing else
+            warnings.simplefilter("error")
+            rec.count("shards_with_warnings_as_errors")
+        for idx, (mods, base, doc) in enumerate(gs):
+            if idx % NSHARDS == shard["i"] or (shard["i"] % 4 == 2 and idx % 4 == 2):
+                run_group(rec, mods, base, doc)
+        rec.info["groups_total"] = len(gs) if shard["i"] == 0 else 0
+        for k in range(SEQ_CASES[tier]):
+            run_sequence(rec, random.Random(f"{seed}/C14/{shard['i']}/{k}"))
+            if k % 3 == 0:
+                run_nested_build(rec, random.Random(f"{seed}/C14/{shard['i']}/nested{k}"))
     if shard["i"] == 0:
         run_nonstrings(rec)
         run_equivalences(rec)
